@@ -22,15 +22,23 @@ ENG = ["sgn_i", "sgc_i", "sgn_v", "sgc_v"]
 
 def close_case(c):
     """append: (coroutine driver: pause,) drop every remaining strong handle, then (coroutine driver) one pause so that everything queued has run"""
+    if c.engine == "sx_i":
+        return c
     ops = [list(o) for o in c.ops]
-    strong = 1
-    for o in ops:
+    coro, void = c.engine.startswith("sgc"), c.engine.endswith("_v")
+    strong, nheld = 1, 0
+    for k, o in enumerate(ops):
         if o == [3] and strong > 0: strong += 1
         elif o == [4] and strong > 0: strong -= 1
-    tail = [[4]] * strong
-    if c.engine.startswith("sgc"):
+        elif len(o) == 6 and o[0] == 9 and k == 0 and o[5] in (0, 1) and 0 <= o[1] <= 63 and 0 <= o[2] <= 9 and o[3] in (0, 1) and 0 <= o[4] <= 3:
+            strong = 1 if o[5] == 1 else 0
+        elif len(o) == 3 and o[0] == 6 and strong > 0 and 0 <= o[1] <= 2 and not (void and o[1] != 0) and abs(o[2]) <= 100000: nheld += 1
+        elif o == [7] and nheld > 0: nheld -= 1
+        elif o == [8] and nheld > 0 and coro: nheld -= 1
+    tail = [[7]] * nheld + [[4]] * strong
+    if coro:
         # pause first: a discarded collector call may have left listeners queued (dropping now would be the known overrun)
-        tail = ([[5]] if ops and ops[-1] != [5] and strong > 0 else []) + tail + [[5]]
+        tail = [[7]] * nheld + ([[5]] if ops and (ops[-1] != [5] or nheld) and strong > 0 else []) + [[4]] * strong + [[5]]
     return Case(c.engine, c.name, ops + tail, c.meta)
 
 
@@ -45,6 +53,7 @@ class G:
         self.nid = 0
         self.cos = 0          # coroutine listeners spawned while alive (upper bound of waiting ones)
         self.dirty = False    # coroutine mode: a discarded call may have left listeners queued
+        self.nheld = 0        # suspend points kept by the driver
         self.v = 10
 
     def fresh(self):
@@ -71,8 +80,7 @@ class G:
         kind = (0 if self.void else r.choice([0, 1, 2])) if kind is None else kind
         if awaited is None:
             awaited = r.choice([0, 1, 1]) if self.coro else 0
-        if self.coro and self.dirty and not self.overrun:
-            self.pause()
+        self.settle()
         self.v += 1
         self.ops.append([2, kind, awaited, self.v])
         if self.coro and not awaited and self.cos > 0:
@@ -80,13 +88,38 @@ class G:
         if self.coro and awaited and self.cos > 0 and not self.overrun:
             self.dirty = False
 
+    def settle(self):
+        """nothing may be pending (kept suspend points, queued listeners) when the collector is called again / the state dies"""
+        if self.overrun: return
+        while self.nheld > 0:
+            self.release()
+        if self.coro and self.dirty:
+            self.pause()
+
+    def hold(self):
+        if self.strong == 0 and self.rng.random() < 0.8: return
+        self.settle()
+        kind = 0 if self.void else self.rng.choice([0, 1, 2])
+        self.v += 1
+        self.ops.append([6, kind, self.v])
+        if self.strong > 0: self.nheld += 1
+
+    def release(self):
+        if self.coro and self.rng.random() < 0.5:
+            self.ops.append([8])
+            # an empty suspend point does not suspend: whatever is queued stays queued
+        else:
+            self.ops.append([7])
+            if self.coro and self.cos > 0: self.dirty = True
+        if self.nheld > 0: self.nheld -= 1
+
     def copy(self):
         self.ops.append([3])
         if self.strong > 0: self.strong += 1
 
     def drop(self):
-        if self.strong == 1 and self.coro and self.dirty and not self.overrun:
-            self.pause()
+        if self.strong == 1:
+            self.settle()
         self.ops.append([4])
         if self.strong > 0: self.strong -= 1
 
@@ -97,13 +130,20 @@ class G:
 
 def gen_random(rng, engine, name, nops):
     g = G(rng, engine)
+    if rng.random() < 0.12:      # the case starts with a listener on signal<T>::hook_up
+        keep = rng.choice([1, 1, 1, 0])
+        g.ops.append([9, g.fresh(), rng.choice([0, 0, 2]), rng.choice([0, 0, 1]), rng.choice([0, 1, 2]), keep])
+        g.cos = 1
+        if not keep: g.strong = 0
     for _ in range(rng.randint(0, 3)):
         g.spawn() if rng.random() < 0.6 else g.connect()
     for _ in range(nops):
         x = rng.random()
         if x < 0.16: g.spawn()
         elif x < 0.28: g.connect()
-        elif x < 0.70: g.emit()
+        elif x < 0.62: g.emit()
+        elif x < 0.70: g.hold()
+        elif x < 0.74 and g.nheld > 0: g.release()
         elif x < 0.78: g.copy()
         elif x < 0.90: g.drop()
         elif g.coro: g.pause()
@@ -192,6 +232,11 @@ def gen(seed, tier):
 
 
 def nontrivial(case, model_obs):
+    if case.engine == "sx_i":
+        # at least 3 thread switches in the executed trace and somebody was taken by an exchange
+        tids = [l.split()[0] for l in model_obs if len(l.split()) == 2]
+        sw = sum(1 for a, b in zip(tids, tids[1:]) if a != b)
+        return sw >= 3 and any(l.startswith("8 ") for l in model_obs)
     for l in model_obs:
         a = l.split()
         if len(a) < 4 or a[0] != "0": continue
@@ -223,6 +268,8 @@ def signature(case, impl_obs, model_obs):
         return "sg:" + (last.split()[1] if len(last.split()) > 1 else "crash")
     if last in ("HANG", "MISSING"):
         return "sg:" + last
+    if case.engine == "sx_i":
+        return "sx:deadlock" if any(l.startswith("777") for l in impl_obs) else "sx:oracle"
     if case.engine in ("sgc_i", "sgc_v"):
         # the strict oracle failed; does the variant that lets a listener queued by a discarded suspend point be
         # overrun by a later collector call / the last drop accept the very same trace?  Then (and only then) this is F-C15.
@@ -231,4 +278,48 @@ def signature(case, impl_obs, model_obs):
     return case.engine[:3] + ":oracle"
 
 
-PARTS = [{"name": "vm_signal", "harness": "vm_signal.cpp", "gen": gen}]
+# ---------------------------------------------------------------- cross-thread scenarios (engine sx_i, harness ctl_signal.cpp)
+def xmk(name, subs, acts, sched, order=None):
+    decl = [[1, k, l] for (k, l) in subs] + [[2] + list(acts)]
+    if order is not None:
+        decl = [decl[i] for i in order]
+    return Case("sx_i", name, decl + [[9] + list(sched)])
+
+
+def gen_x(seed, tier):
+    import itertools
+    rng = random.Random(seed * 15485863 + 1515)
+    n = 250 if tier == "quick" else 3000
+    cases = []
+    for i in range(n):
+        ns = rng.choice([1, 1, 2, 2, 3, 4])
+        subs = [(rng.choice([0, 1, 1, 2, 2, 3]), rng.choice([0, 1, 2, 3])) for _ in range(ns)]
+        ne = rng.choice([0, 1, 1, 2, 3])
+        acts = [1] * ne + ([0] if rng.random() < 0.93 else [])
+        order = list(range(ns + 1)); rng.shuffle(order)
+        L = rng.choice([0, 6, 12, 20, 30, 40])
+        style = rng.random()
+        if style < 0.5:
+            sched = [rng.randint(0, 5) for _ in range(L)]
+        elif style < 0.8:      # bursts: one thread runs for a while (opens the window between asub/apub and rchain/walk)
+            sched = []
+            while len(sched) < L:
+                sched += [rng.randint(0, 5)] * rng.randint(1, 5)
+        else:
+            sched = [rng.choice([5, 4, 3, 0]) for _ in range(L)]
+        cases.append(xmk("x%d" % i, subs, acts, sched, order))
+    if tier != "quick":
+        j = 0
+        cfgs = [([(0, 0)], [1, 0]), ([(1, 0)], [1, 0]), ([(2, 0)], [1, 1, 0]), ([(3, 0)], [1, 0]), ([(1, 0), (2, 1)], [1, 0]),
+                ([(0, 0), (1, 0)], [0]), ([(2, 2), (3, 0)], [1, 1, 0])]
+        for (subs, acts) in cfgs:
+            for pre in itertools.product(range(3), repeat=7):
+                cases.append(xmk("y%d" % j, subs, acts, pre)); j += 1
+    # malformed: no collector / two collectors
+    cases.append(Case("sx_i", "bad0", [[1, 0, 0], [9, 0, 0]]))
+    cases.append(Case("sx_i", "bad1", [[2, 1, 0], [2, 1], [1, 0, 0], [9, 1]]))
+    return cases
+
+
+PARTS = [{"name": "vm_signal", "harness": "vm_signal.cpp", "gen": gen},
+         {"name": "ctl_signal", "harness": "ctl_signal.cpp", "gen": gen_x, "timeout_case": 10}]
